@@ -195,13 +195,14 @@ def LeafClause (ev : Leaf → Bool) (X Y Z : Nat) (l : Leaf) : Prop :=
 theorem group_items (X Y Z : Nat) (g : List Leaf) (hL : ∀ l ∈ g, LeafClause ev X Y Z l) :
     ∃ items : List String, (g.map leafPair).mapM (fun p => normalizePyPair p.1 p.2) = .ok items ∧
       (∀ p ∈ g.map leafPair, RelOp p.1) ∧ items.length = g.length ∧
-      (∀ it ∈ items, ∃ l ∈ g, ClauseMeans it X Y Z (ev l)) := by
+      (∀ it ∈ items, ∃ l ∈ g, ClauseMeans it X Y Z (ev l)) ∧
+      (∀ l ∈ g, ∃ it ∈ items, ClauseMeans it X Y Z (ev l)) := by
   induction g with
-  | nil => exact ⟨[], rfl, by simp, rfl, by simp⟩
+  | nil => exact ⟨[], rfl, by simp, rfl, by simp, by simp⟩
   | cons l ls ih =>
     obtain ⟨s, item, rfl, hop, hitem, hmean⟩ := hL l (by simp)
-    obtain ⟨items, h1, h2, h3, h4⟩ := ih (fun x hx => hL x (by simp [hx]))
-    refine ⟨item :: items, ?_, ?_, by simp [h3], ?_⟩
+    obtain ⟨items, h1, h2, h3, h4, h5⟩ := ih (fun x hx => hL x (by simp [hx]))
+    refine ⟨item :: items, ?_, ?_, by simp [h3], ?_, ?_⟩
     · simp only [List.map_cons, List.mapM_cons, leafPair, hitem, bind, Except.bind, h1, pure, Except.pure]
     · intro p hp
       simp only [List.map_cons, List.mem_cons] at hp
@@ -212,25 +213,33 @@ theorem group_items (X Y Z : Nat) (g : List Leaf) (hL : ∀ l ∈ g, LeafClause 
       rcases List.mem_cons.1 hit with rfl | hit
       · exact ⟨_, by simp, hmean⟩
       · obtain ⟨l, hl, hm⟩ := h4 it hit; exact ⟨l, by simp [hl], hm⟩
+    · intro l hl
+      rcases List.mem_cons.1 hl with rfl | hl
+      · exact ⟨item, by simp, hmean⟩
+      · obtain ⟨it, hit, hm⟩ := h5 l hl; exact ⟨it, by simp [hit], hm⟩
 
 theorem normMarkers_groups (X Y Z : Nat) (gs : List (List Leaf))
     (hL : ∀ g ∈ gs, ∀ l ∈ g, LeafClause ev X Y Z l) :
     ∃ itemss : List (List String),
       normalizePyMarkers (gs.map (·.map leafPair)) = .ok (joinWith " || " (itemss.map (joinWith " "))) ∧
       itemss.length = gs.length ∧
-      (∀ g ∈ gs, ∃ items ∈ itemss, items.length = g.length ∧ ∀ it ∈ items, ∃ l ∈ g, ClauseMeans it X Y Z (ev l)) ∧
-      (∀ items ∈ itemss, ∃ g ∈ gs, items.length = g.length ∧ ∀ it ∈ items, ∃ l ∈ g, ClauseMeans it X Y Z (ev l)) := by
+      (∀ g ∈ gs, ∃ items ∈ itemss, items.length = g.length ∧ (∀ it ∈ items, ∃ l ∈ g, ClauseMeans it X Y Z (ev l)) ∧
+        (∀ l ∈ g, ∃ it ∈ items, ClauseMeans it X Y Z (ev l))) ∧
+      (∀ items ∈ itemss, ∃ g ∈ gs, items.length = g.length ∧ (∀ it ∈ items, ∃ l ∈ g, ClauseMeans it X Y Z (ev l)) ∧
+        (∀ l ∈ g, ∃ it ∈ items, ClauseMeans it X Y Z (ev l))) := by
   have key : ∃ itemss : List (List String),
       (gs.map (·.map leafPair)).mapM (fun conj => do
         let alts ← normalizePyConj conj [[]]
         pure (alts.map (joinWith " "))) = .ok (itemss.map (fun items => [joinWith " " items])) ∧
       itemss.length = gs.length ∧
-      (∀ g ∈ gs, ∃ items ∈ itemss, items.length = g.length ∧ ∀ it ∈ items, ∃ l ∈ g, ClauseMeans it X Y Z (ev l)) ∧
-      (∀ items ∈ itemss, ∃ g ∈ gs, items.length = g.length ∧ ∀ it ∈ items, ∃ l ∈ g, ClauseMeans it X Y Z (ev l)) := by
+      (∀ g ∈ gs, ∃ items ∈ itemss, items.length = g.length ∧ (∀ it ∈ items, ∃ l ∈ g, ClauseMeans it X Y Z (ev l)) ∧
+        (∀ l ∈ g, ∃ it ∈ items, ClauseMeans it X Y Z (ev l))) ∧
+      (∀ items ∈ itemss, ∃ g ∈ gs, items.length = g.length ∧ (∀ it ∈ items, ∃ l ∈ g, ClauseMeans it X Y Z (ev l)) ∧
+        (∀ l ∈ g, ∃ it ∈ items, ClauseMeans it X Y Z (ev l))) := by
     induction gs with
     | nil => exact ⟨[], rfl, rfl, by simp, by simp⟩
     | cons g gs ih =>
-      obtain ⟨items, h1, h2, h3, h4⟩ := group_items X Y Z g (hL g (by simp))
+      obtain ⟨items, h1, h2, h3, h4, h5⟩ := group_items X Y Z g (hL g (by simp))
       obtain ⟨itemss, k1, k2, k3, k4⟩ := ih (fun x hx => hL x (by simp [hx]))
       have hc := normConj_items (g.map leafPair) items [[]] h2 h1
       refine ⟨items :: itemss, ?_, by simp [k2], ?_, ?_⟩
@@ -238,11 +247,11 @@ theorem normMarkers_groups (X Y Z : Nat) (gs : List (List Leaf))
         rfl
       · intro x hx
         rcases List.mem_cons.1 hx with rfl | hx
-        · exact ⟨items, by simp, h3, h4⟩
+        · exact ⟨items, by simp, h3, h4, h5⟩
         · obtain ⟨it, hit, hh⟩ := k3 x hx; exact ⟨it, by simp [hit], hh⟩
       · intro x hx
         rcases List.mem_cons.1 hx with rfl | hx
-        · exact ⟨g, by simp, h3, h4⟩
+        · exact ⟨g, by simp, h3, h4, h5⟩
         · obtain ⟨g', hg', hh⟩ := k4 x hx; exact ⟨g', by simp [hg'], hh⟩
   obtain ⟨itemss, k1, k2, k3, k4⟩ := key
   refine ⟨itemss, ?_, k2, k3, k4⟩
@@ -361,7 +370,7 @@ theorem gpc_upper (S : LeafSpec ev G) (X Y Z : Nat) (m : M) (g : VC) (hg : M.Goo
                     have hgd : gr ∈ dedupGroups groups := (dedup_mem groups gr).2 hgr1
                     rw [hdg] at hgd
                     obtain ⟨ls', hls', hls'e⟩ := List.mem_map.1 hgd
-                    obtain ⟨items, hit, hitl, hitm⟩ := k3 ls' hls'
+                    obtain ⟨items, hit, hitl, hitm, _⟩ := k3 ls' hls'
                     -- items of that group all mean true
                     have htrue : ∀ it ∈ items, ClauseMeans it X Y Z true := by
                       intro it hi
@@ -387,7 +396,7 @@ theorem gpc_upper (S : LeafSpec ev G) (X Y Z : Nat) (m : M) (g : VC) (hg : M.Goo
                     have hne : itemss ≠ [] := List.ne_nil_of_mem hit
                     have hnn : ∀ its ∈ itemss, its ≠ [] := by
                       intro its hits
-                      obtain ⟨g', hg', hl', _⟩ := k4 its hits
+                      obtain ⟨g', hg', hl', _, _⟩ := k4 its hits
                       intro e
                       rw [e] at hl'
                       have : g' = [] := List.length_eq_zero_iff.1 hl'.symm
@@ -399,11 +408,291 @@ theorem gpc_upper (S : LeafSpec ev G) (X Y Z : Nat) (m : M) (g : VC) (hg : M.Goo
                       simpa using this
                     have hpar : ∀ its ∈ itemss, ∀ it ∈ its, ∃ b, ClauseMeans it X Y Z b := by
                       intro its hits it hi
-                      obtain ⟨g', hg', _, hh⟩ := k4 its hits
+                      obtain ⟨g', hg', _, hh, _⟩ := k4 its hits
                       obtain ⟨l, _, hm⟩ := hh it hi
                       exact ⟨_, hm⟩
                     obtain ⟨vc, hvc, hb⟩ := (hSp itemss hne hnn hpar).1 ⟨items, hit, htrue⟩
                     rw [hvc] at h; injection h with h; subst h
                     exact hb
+
+
+/-! ### exactness on python-only markers with a DNF of python items -/
+
+mutual
+theorem only_keeps_aux (S : LeafSpec ev G) (names : List String) (m r : M) (hg : M.Good G m)
+    (hv : ∀ n ∈ M.vars m, names.contains n = true) (h : M.only names m = .ok r) :
+    M.sem ev r = M.sem ev m := by
+  cases m with
+  | any => simp [M.only] at h; subst h; rfl
+  | empty => simp [M.only] at h; subst h; rfl
+  | leaf l =>
+    simp [M.only] at h; subst h
+    have : names.contains l.name = true := hv l.name (by simp [M.vars])
+    simp at this
+    simp [this]
+  | multi ms =>
+    simp only [M.only, bind, Except.bind] at h
+    split at h
+    · cases h
+    · rename_i xs hx
+      have hgl : M.GoodAll G ms := by simpa [M.Good] using hg
+      have hl := only_keeps_list S names ms xs hgl (by simpa [M.vars] using hv) hx
+      have hw := only_weakens_list S names ms xs hgl hx
+      rw [(multiOf_sound S hw.1 h).2, hl.1]; simp only [M.sem]
+  | union ms =>
+    simp only [M.only, bind, Except.bind] at h
+    split at h
+    · cases h
+    · rename_i xs hx
+      have hgl : M.GoodAll G ms := by simpa [M.Good] using hg
+      have hl := only_keeps_list S names ms xs hgl (by simpa [M.vars] using hv) hx
+      have hw := only_weakens_list S names ms xs hgl hx
+      rw [(unionOf_sound S hw.1 h).2, hl.2]; simp only [M.sem]
+theorem only_keeps_list (S : LeafSpec ev G) (names : List String) (ms xs : List M) (hg : M.GoodAll G ms)
+    (hv : ∀ n ∈ M.varsList ms, names.contains n = true) (h : M.onlyList names ms = .ok xs) :
+    M.semAll ev xs = M.semAll ev ms ∧ M.semAny ev xs = M.semAny ev ms := by
+  cases ms with
+  | nil => simp [M.onlyList] at h; subst h; simp
+  | cons m rest =>
+    simp only [M.onlyList, bind, Except.bind] at h
+    split at h
+    · cases h
+    · rename_i x hx
+      split at h
+      · cases h
+      · rename_i ys hys
+        simp [pure, Except.pure] at h; subst h
+        have ih := only_keeps_list S names rest ys hg.2 (fun n hn => hv n (by simp [M.varsList, hn])) hys
+        have ih1 := only_keeps_aux S names m x hg.1 (fun n hn => hv n (by simp [M.varsList, hn])) hx
+        simp only [M.semAll, M.semAny, ih1, ih.1, ih.2, and_self]
+end
+
+/-- every conjunction of the DNF is a python item or a conjunction of python items, and there is at least one -/
+def DnfPy (d : M) : Prop :=
+  membersIfUnion d ≠ [] ∧ ∀ c ∈ membersIfUnion d,
+    (∃ l, c = .leaf l ∧ convKey l.name = pyKey) ∨
+    (∃ ms, c = .multi ms ∧ ∀ x ∈ ms, ∃ l, x = .leaf l ∧ convKey l.name = pyKey)
+
+theorem pyLeaves_all (ms : List M) (h : ∀ x ∈ ms, ∃ l, x = .leaf l ∧ convKey l.name = pyKey) :
+    ms = (pyLeaves ms).map M.leaf := by
+  induction ms with
+  | nil => rfl
+  | cons x xs ih =>
+    obtain ⟨l, rfl, hk⟩ := h x (by simp)
+    have hk' : (convKey l.name == pyKey) = true := by simpa using hk
+    simp only [pyLeaves, hk', if_true, List.map_cons]
+    rw [← ih (fun y hy => h y (by simp [hy]))]
+
+theorem semAll_leaves (ls : List Leaf) : M.semAll ev (ls.map M.leaf) = ls.all ev := by
+  induction ls with
+  | nil => rfl
+  | cons l ls ih => simp [M.semAll, ih]
+
+theorem leaf_mem_leavesList (ms : List M) (l : Leaf) (h : M.leaf l ∈ ms) : l ∈ M.leavesList ms := by
+  induction ms with
+  | nil => cases h
+  | cons x xs ih =>
+    rcases List.mem_cons.1 h with rfl | hx
+    · simp [M.leavesList, M.leaves]
+    · simp [M.leavesList, ih hx]
+
+/-- for a conjunction of python items the group lists all of its items, and the conjunction holds exactly
+when they all do -/
+theorem conjPairs_py (c : M) (ps : List (String × String)) (h : conjPairs pyKey c = .ok ps)
+    (hc : (∃ l, c = .leaf l ∧ convKey l.name = pyKey) ∨
+      (∃ ms, c = .multi ms ∧ ∀ x ∈ ms, ∃ l, x = .leaf l ∧ convKey l.name = pyKey)) :
+    ∃ ls : List Leaf, ps = ls.map leafPair ∧ (∀ l ∈ ls, l ∈ M.leaves c) ∧ M.sem ev c = ls.all ev := by
+  rcases hc with ⟨l, rfl, hk⟩ | ⟨ms, rfl, hms⟩
+  · have hk' : (convKey l.name == pyKey) = true := by simpa using hk
+    simp [conjPairs, hk'] at h; subst h
+    exact ⟨[l], rfl, by simp [M.leaves], by simp⟩
+  · simp only [conjPairs] at h
+    have := conjFold ms [] ps h
+    have hall := pyLeaves_all ms hms
+    refine ⟨pyLeaves ms, by simpa using this.2, ?_, ?_⟩
+    · intro l hl
+      have : M.leaf l ∈ ms := by rw [hall]; exact List.mem_map.2 ⟨l, hl, rfl⟩
+      simpa [M.leaves] using leaf_mem_leavesList ms l this
+    · simp only [M.sem]
+      calc M.semAll ev ms = M.semAll ev ((pyLeaves ms).map M.leaf) := congrArg _ hall
+        _ = (pyLeaves ms).all ev := semAll_leaves _
+
+
+theorem leavesList_py (ms : List M) (hms : ∀ x ∈ ms, ∃ l, x = .leaf l ∧ convKey l.name = pyKey) :
+    ∀ l ∈ M.leavesList ms, convKey l.name = pyKey := by
+  induction ms with
+  | nil => simp [M.leavesList]
+  | cons x xs ih =>
+    obtain ⟨lx, rfl, hkx⟩ := hms x (by simp)
+    intro l hl
+    simp only [M.leavesList, M.leaves, List.mem_append, List.mem_singleton, List.cons_append,
+      List.nil_append, List.mem_cons] at hl
+    rcases hl with rfl | hh
+    · exact hkx
+    · exact ih (fun y hy => hms y (by simp [hy])) l hh
+
+theorem sem_of_member_true (d c : M) (hc : c ∈ membersIfUnion d) (h : M.sem ev c = true) : M.sem ev d = true := by
+  cases d with
+  | union ms => simp only [M.sem]; exact semAny_of_mem ev ms c (by simpa [membersIfUnion] using hc) h
+  | any => simp
+  | empty => simp [membersIfUnion] at hc; subst hc; exact h
+  | leaf l => simp [membersIfUnion] at hc; subst hc; exact h
+  | multi ms => simp [membersIfUnion] at hc; subst hc; exact h
+
+theorem member_false_of_sem_false (d c : M) (hc : c ∈ membersIfUnion d) (h : M.sem ev d = false) :
+    M.sem ev c = false := by
+  cases hs : M.sem ev c with
+  | false => rfl
+  | true => rw [sem_of_member_true d c hc hs] at h; cases h
+
+theorem empty_allowsPlain (p : Version) : VC.empty.allowsPlain p = false := by
+  simp [VC.allowsPlain, VC.flatten]
+
+/-- **exactness on python-only markers**: the range admits exactly the interpreters on which the marker holds,
+for a marker over python variables only whose DNF consists of python items (`DnfPy`). -/
+theorem gpc_exact (S : LeafSpec ev G) (X Y Z : Nat) (m : M) (g : VC) (hg : M.Good G m)
+    (hv : ∀ n ∈ M.vars m, pyNames.contains n = true)
+    (hL : ∀ l, G l → convKey l.name = pyKey → LeafClause ev X Y Z l) (hSp : SplitSound X Y Z)
+    (hshape : ∀ d, dnf defaultFuel [] m = .ok d → DnfPy d)
+    (h : gpc m = .ok g) : M.sem ev m = g.allowsPlain (pyV X Y Z) := by
+  cases hs : M.sem ev m with
+  | true => exact (gpc_upper S X Y Z m g hg hL hSp h hs).symm
+  | false =>
+    symm
+    simp only [gpc, bind, Except.bind] at h
+    split at h
+    · cases h
+    · rename_i pm hpm
+      have hk := only_keeps_aux S _ m pm hg hv hpm
+      by_cases ha : pm.isAny = true
+      · rw [M.isAny_sem ha, hs] at hk; cases hk
+      · simp only [ha, Bool.false_eq_true, if_false] at h
+        by_cases he : pm.isEmpty = true
+        · simp only [he, if_true, pure, Except.pure] at h
+          injection h with h; subst h; exact empty_allowsPlain _
+        · simp only [he, Bool.false_eq_true, if_false] at h
+          split at h
+          · cases h
+          · rename_i cm hcm
+            simp only [convertMarkersFor, bind, Except.bind] at hcm
+            split at hcm
+            · cases hcm
+            · rename_i d hd
+              have hds := dnf_sound S hg hd
+              have hdf : M.sem ev d = false := by rw [hds.2]; exact hs
+              obtain ⟨hne, hsh⟩ := hshape d hd
+              split at hcm
+              · cases hcm
+              · rename_i groups hgroups
+                have hmm := mapM_ok_mem (conjPairs "python_version") (membersIfUnion d) groups hgroups
+                -- no conjunction of the DNF has an empty group (it would hold)
+                have hnoempty : ∀ gr ∈ groups, gr ≠ [] := by
+                  intro gr hgr e
+                  subst e
+                  obtain ⟨c, hc, hcp⟩ := hmm.2 [] hgr
+                  obtain ⟨ls, h1, _, h3⟩ := conjPairs_py (ev := ev) c [] hcp (hsh c hc)
+                  have : ls = [] := by simpa using h1.symm
+                  subst this
+                  have := member_false_of_sem_false d c hc hdf
+                  rw [h3] at this; simp at this
+                by_cases hall : groups.all List.isEmpty = true
+                · exfalso
+                  obtain ⟨c, hc⟩ := List.exists_mem_of_ne_nil _ hne
+                  obtain ⟨gr, hgr, _⟩ := hmm.1 c hc
+                  have := List.all_eq_true.1 hall gr hgr
+                  exact hnoempty gr hgr (by simpa using this)
+                · simp only [hall, Bool.false_eq_true, if_false, pure, Except.pure] at hcm
+                  injection hcm with hcm; subst hcm
+                  simp only at h
+                  by_cases hc : (dedupGroups groups).contains [] = true
+                  · exfalso
+                    have : ([] : List (String × String)) ∈ dedupGroups groups := by simpa using hc
+                    exact hnoempty [] ((dedup_mem groups []).1 this) rfl
+                  · simp only [hc, Bool.false_eq_true, if_false] at h
+                    split at h
+                    · cases h
+                    · rename_i txt htxt
+                      have hgr : ∀ gr ∈ dedupGroups groups, ∃ ls : List Leaf, gr = ls.map leafPair ∧
+                          ∀ l ∈ ls, LeafClause ev X Y Z l := by
+                        intro gr hgr
+                        obtain ⟨c, hc, hcp⟩ := hmm.2 gr ((dedup_mem groups gr).1 hgr)
+                        obtain ⟨ls, h1, h2, h3, _⟩ := conjPairs_spec (ev := ev) c gr hcp
+                        refine ⟨ls, h1, fun l hl => hL l ?_ (h2 l hl)⟩
+                        exact good_leaves c (good_membersIfUnion d hds.1 c hc) l (h3 l hl)
+                      obtain ⟨gsL, hdg, hgsL⟩ := choose_groups _ _ hgr
+                      obtain ⟨itemss, hn, hlen, k3, k4⟩ := normMarkers_groups X Y Z gsL hgsL
+                      rw [hdg, hn] at htxt
+                      injection htxt with htxt; subst htxt
+                      have hne' : itemss ≠ [] := by
+                        obtain ⟨c, hc⟩ := List.exists_mem_of_ne_nil _ hne
+                        obtain ⟨gr, hgr1, _⟩ := hmm.1 c hc
+                        have hgd : gr ∈ dedupGroups groups := (dedup_mem groups gr).2 hgr1
+                        rw [hdg] at hgd
+                        obtain ⟨ls', hls', _⟩ := List.mem_map.1 hgd
+                        obtain ⟨items, hit, _⟩ := k3 ls' hls'
+                        exact List.ne_nil_of_mem hit
+                      have hnn : ∀ its ∈ itemss, its ≠ [] := by
+                        intro its hits
+                        obtain ⟨g', hg', hl', _, _⟩ := k4 its hits
+                        intro e
+                        rw [e] at hl'
+                        have : g' = [] := List.length_eq_zero_iff.1 hl'.symm
+                        subst this
+                        apply hc
+                        rw [hdg]
+                        have : ([] : List (String × String)) ∈ gsL.map (·.map leafPair) :=
+                          List.mem_map.2 ⟨[], hg', rfl⟩
+                        simpa using this
+                      have hpar : ∀ its ∈ itemss, ∀ it ∈ its, ∃ b, ClauseMeans it X Y Z b := by
+                        intro its hits it hi
+                        obtain ⟨g', hg', _, hh, _⟩ := k4 its hits
+                        obtain ⟨l, _, hm⟩ := hh it hi
+                        exact ⟨_, hm⟩
+                      -- every group has a clause that rejects the interpreter
+                      have hfalse : ∀ its ∈ itemss, ∃ it ∈ its, ClauseMeans it X Y Z false := by
+                        intro its hits
+                        obtain ⟨g', hg', _, _, hconv⟩ := k4 its hits
+                        have hgd : g'.map leafPair ∈ dedupGroups groups := by
+                          rw [hdg]; exact List.mem_map.2 ⟨g', hg', rfl⟩
+                        obtain ⟨c, hc1, hcp⟩ := hmm.2 _ ((dedup_mem groups _).1 hgd)
+                        obtain ⟨ls, h1, h2, h3⟩ := conjPairs_py (ev := ev) c _ hcp (hsh c hc1)
+                        have hcf := member_false_of_sem_false d c hc1 hdf
+                        rw [h3] at hcf
+                        obtain ⟨l0, hl0, hev0⟩ : ∃ l0 ∈ ls, ev l0 = false := by
+                          have : ¬ (∀ x ∈ ls, ev x = true) := by
+                            intro hx; rw [List.all_eq_true.2 hx] at hcf; cases hcf
+                          by_contra hcon
+                          apply this
+                          intro x hx
+                          cases hxe : ev x with
+                          | true => rfl
+                          | false => exact (hcon ⟨x, hx, hxe⟩).elim
+                        have hp : leafPair l0 ∈ g'.map leafPair := by rw [h1]; exact List.mem_map.2 ⟨l0, hl0, rfl⟩
+                        obtain ⟨l', hl', hpe⟩ := List.mem_map.1 hp
+                        obtain ⟨it, hit, hm⟩ := hconv l' hl'
+                        refine ⟨it, hit, ?_⟩
+                        -- `l'` and `l0` have the same pair, hence the same clause, hence the same truth
+                        have hG0 : G l0 := good_leaves c (good_membersIfUnion d hds.1 c hc1) l0 (h2 l0 hl0)
+                        have hk0 : convKey l0.name = pyKey := by
+                          rcases hsh c hc1 with ⟨l, rfl, hk⟩ | ⟨ms, rfl, hms⟩
+                          · have := h2 l0 hl0; simp [M.leaves] at this; subst this; exact hk
+                          · have := h2 l0 hl0
+                            simp only [M.leaves] at this
+                            exact leavesList_py ms hms l0 this
+                        obtain ⟨s0, item0, rfl, _, hitem0, hmean0⟩ := hL l0 hG0 hk0
+                        obtain ⟨s1, item1, rfl, _, hitem1, hmean1⟩ := hgsL g' hg' l' hl'
+                        simp only [leafPair, Prod.mk.injEq] at hpe
+                        rw [← hpe.1, ← hpe.2, hitem1] at hitem0
+                        injection hitem0 with hitem0; subst hitem0
+                        rw [hev0] at hmean0
+                        obtain ⟨vc0, hvc0, hb0⟩ := hmean0
+                        obtain ⟨vc1, hvc1, hb1⟩ := hmean1
+                        rw [hvc0] at hvc1; injection hvc1 with hvc1; subst hvc1
+                        rw [hb0] at hb1
+                        rw [← hb1] at hm
+                        exact hm
+                      obtain ⟨vc, hvc, hb⟩ := (hSp itemss hne' hnn hpar).2 hfalse
+                      rw [hvc] at h; injection h with h; subst h
+                      exact hb
 
 end Poetry.Marker
